@@ -8,9 +8,11 @@ package engine
 // storage (made known to that shard's metabase through a thin exporter).
 
 import (
+	"bytes"
 	"context"
 	"fmt"
 	"io"
+	"math/rand/v2"
 	"path/filepath"
 	"testing"
 	"time"
@@ -60,7 +62,7 @@ func TestVerif_C11(t *testing.T) {
 		small = []int{0, 1, 2, 3, 4, 5, 8, 16, 33, 64}
 	}
 	nBig, nDirected := r.Pick(4, 14), r.Pick(60, 160)
-	r.SetRule(fmt.Sprintf("engine with two shards: payload lengths %v with every request of the four modes (values 0..len+2) plus huge values, %d larger payloads with %d boundary-directed requests each; objects put through StorageEngine.Put (combined files; >128 KiB plain files) or planted as zstd / combined files in one shard; StorageEngine.GetRangeStream, ReadPayloadRange, ReadObject, GetRange with/without header interception; distinct = (api, format, length class, mode, request shape)", small, nBig, nDirected))
+	r.SetRule(fmt.Sprintf("engine with two shards: payload lengths %v with every request of the four modes (values 0..len+2) plus huge values, %d larger payloads with %d boundary-directed requests each; objects put through StorageEngine.Put (combined files; >128 KiB plain files) or planted as zstd / combined files in one shard; StorageEngine.GetRangeStream, ReadPayloadRange, ReadObject, GetRange with/without header interception; then batches of 2..8 range reads with overlapping answer lifetimes (seeded schedule of issue / read chunk / abandon / close) and rounds of concurrent reads, judged by the same resolver; distinct = (api, format, length class, mode, request shape)", small, nBig, nDirected))
 	ctx := context.Background()
 	cnr, owner := verifkit.RandCID(r.Rand("ids", 0)), verifkit.RandUser(r.Rand("ids", 1))
 
@@ -225,4 +227,56 @@ func TestVerif_C11(t *testing.T) {
 			}
 		}
 	}
+
+	// answers with overlapping lifetimes and concurrent requests (see vf11.Overlapped)
+	vf11.OverlapPhase(r, "engine", 0, r.Pick(60, 400), r.Pick(2, 10), func(rng *rand.Rand) vf11.Call {
+		o := items[rng.IntN(len(items))].o
+		if rng.IntN(2) == 0 { // larger payloads half of the time
+			o = items[len(items)-1-rng.IntN(3*nBig)].o
+		}
+		req := vf11.RandReq(rng, o)
+		withHook := rng.IntN(2) == 0
+		var hook func([]byte) error
+		if withHook {
+			var calls int
+			hook = vf11.Intercept(&calls)
+		}
+		cl := vf11.Call{Layer: "engine", O: o, Req: req}
+		api := rng.IntN(4)
+		if api >= 2 && req.Mode != common.PayloadRangeModeOffsetLength {
+			api -= 2
+		}
+		switch api {
+		case 0:
+			cl.API = "GetRangeStream"
+			cl.Open = func() (io.ReadCloser, func() []byte, error) {
+				_, stream, err := e.GetRangeStream(ctx, o.Addr, req.Range(), withHook)
+				return stream, nil, err
+			}
+		case 1:
+			cl.API = "ReadObject"
+			cl.Open = func() (io.ReadCloser, func() []byte, error) {
+				buf := make([]byte, 2*vf11.NPFBL)
+				n, stream, err := e.ReadObject(ctx, o.Addr, req.Range(), buf, hook)
+				return vf11.PartsOpen(req, buf, n, stream, err)
+			}
+		case 2:
+			cl.API = "ReadPayloadRange"
+			cl.Open = func() (io.ReadCloser, func() []byte, error) {
+				var stream io.ReadCloser
+				stream, err := e.ReadPayloadRange(ctx, o.Addr, req.A, req.B, make([]byte, 2*vf11.NPFBL))
+				return stream, nil, err
+			}
+		default:
+			cl.API = "GetRange"
+			cl.Open = func() (io.ReadCloser, func() []byte, error) {
+				data, err := e.GetRange(ctx, o.Addr, req.A, req.B)
+				if err != nil {
+					return nil, nil, err
+				}
+				return io.NopCloser(bytes.NewReader(data)), nil, nil
+			}
+		}
+		return cl
+	})
 }
